@@ -9,7 +9,7 @@ Driver for C30 (stateless).
   exp <height> <blocktime> <txHeightOn 0|1> <tx>*               -> ids kept | panic
 forks  = `-` | `<forkHeight>:<value>,...`
 entry  = `b` | `s<id>:<size>:<blocked 0|1>` | `g` | `g<id>:<size>:<b>+<id>:<size>:<b>+...`
-tx     = `<id>:<groupCount>:<expire>:<hdr>`,  hdr = `n` | `g` | `g<expire>.<expire>...`
+tx     = `<id>:<groupCount>:<expire>:<hdr>`,  hdr = `n` | `g` | `g<groupCount>~<expire>.<groupCount>~<expire>...`
 -/
 
 def joinOr (sep : String) (xs : List String) : String :=
@@ -44,10 +44,17 @@ def parseEntry (s : String) : Option Entry :=
   else if s.startsWith "g" then (allSome (((s.drop 1).toString.splitOn "+").map parseTx)).map .group
   else none
 
-def parseHdr (s : String) : Option (Option (List Int)) :=
+def parseMember (s : String) : Option (Int × Int) :=
+  match s.splitOn "~" with
+  | [g, e] => match parseInt? g, parseInt? e with
+    | some g, some e => some (g, e)
+    | _, _ => none
+  | _ => none
+
+def parseHdr (s : String) : Option (Option (List (Int × Int))) :=
   if s == "n" then some none
   else if s == "g" then some (some [])
-  else if s.startsWith "g" then (allSome (((s.drop 1).toString.splitOn ".").map parseInt?)).map some
+  else if s.startsWith "g" then (allSome (((s.drop 1).toString.splitOn ".").map parseMember)).map some
   else none
 
 def parseETx (s : String) : Option ETx :=
